@@ -59,9 +59,18 @@ Fixpoint run_same (k : nat) (q : list Z) (l : list mitem) : nat :=
   | [] => O
   end.
 
-(* shared loop of opt_level_1 (k = 1, idm = identity(2), need2 = false) and
-   opt_level_3 (k = 2, idm = identity(4), need2 = true: the extra test len(gate_list) > 1).
-   fuel = len(gate_list); every iteration removes at least one element. *)
+(* one iteration of the loop of opt_level_1 (k = 1, idm = identity(2), need2 = false) and
+   opt_level_3 (k = 2, idm = identity(4), need2 = true: the extra test len(gate_list) > 1) on gate_list = g0 :: tl:
+   returns the element appended to result_k and the new gate_list *)
+Definition run_step (k : nat) (idm : M) (need2 : bool) (g0 : mitem) (tl : list mitem) : mitem * list mitem :=
+  let gl := g0 :: tl in
+  if len_is k g0 && (negb need2 || Nat.ltb 1 (length gl)) then
+    let c := S (run_same k (snd g0) tl) in
+    if Nat.ltb 1 c then ((fuse_run idm (firstn c gl), snd g0), skipn c gl)
+    else (g0, skipn c gl)
+  else (g0, tl).
+
+(* while gate_list: ...    fuel = len(gate_list); every iteration removes at least one element. *)
 Fixpoint run_loop (k : nat) (idm : M) (need2 : bool) (fuel : nat) (gl : list mitem) : res (list mitem) :=
   match gl with
   | [] => Ok []
@@ -69,12 +78,7 @@ Fixpoint run_loop (k : nat) (idm : M) (need2 : bool) (fuel : nat) (gl : list mit
     match fuel with
     | O => Err OutOfFuel
     | S f =>
-      let '(hd, gl') :=
-        if len_is k g0 && (negb need2 || Nat.ltb 1 (length gl)) then
-          let c := S (run_same k (snd g0) tl) in
-          if Nat.ltb 1 c then ((fuse_run idm (firstn c gl), snd g0), skipn c gl)
-          else (g0, skipn c gl)
-        else (g0, tl) in
+      let '(hd, gl') := run_step k idm need2 g0 tl in
       match gl' with
       | [x] => Ok [hd; x]            (* if len(gate_list) == 1: append it, remove it *)
       | _ => r <- run_loop k idm need2 f gl' ;; Ok (hd :: r)
